@@ -28,6 +28,9 @@ from cutplace import _compat, _tools, checks, data, errors, fields, rowio
 
 _log = logging.getLogger("cutplace")
 
+#: Modules loaded by :py:func:`import_plugins`.
+_plugin_modules = []
+
 
 class Cid(object):
     _EMPTY_INDICATOR = "x"
@@ -638,6 +641,9 @@ def import_plugins(folder_to_scan_for_plugins):
         spec = importlib.util.spec_from_loader(module_name_to_import, loader)
         loaded_module = importlib.util.module_from_spec(spec)
         loader.exec_module(loaded_module)
+        # Keep the module alive: classes only show up in ``__subclasses__()`` (which holds weak references) as long
+        # as something refers to them.
+        _plugin_modules.append(loaded_module)
     current_checks = set(checks.AbstractCheck.__subclasses__())  # @UndefinedVariable
     current_field_formats = set(fields.AbstractFieldFormat.__subclasses__())  # @UndefinedVariable
     log_imported_items("fields", base_field_formats, current_field_formats)
